@@ -6,6 +6,7 @@ import (
 	"fmt"
 	"net"
 	"os"
+	"runtime"
 	"time"
 
 	"github.com/gopcua/opcua/id"
@@ -152,3 +153,5 @@ func tailStr(s string, n int) string {
 func init() {
 	sut.Register("real-server", realServerRole)
 }
+
+func runtimeStackImpl(buf []byte) int { return runtime.Stack(buf, false) }
